@@ -50,7 +50,8 @@ Part == << <<"w", <<NText("w" \o Wide)>>>>,
            <<"xl", <<Extends("lb"), Block("z", FALSE, <<ForN("i", R13, <<NOut(P(VP("block", "super"))), NText("|")>>)>>)>>>>,
            <<"xm", <<Extends("xl"), Block("z", FALSE, <<ForN("j", R12, <<NOut(P(VP("block", "super"))), NText(";")>>)>>)>>>> >>
 MCPartials == Part
-MCData == { << <<<<"arr", Arr(<<IntV(1), IntV(2), IntV(3)>>)>>, <<"s", Str("d" \o Wide \o "\r\n")>>>>, <<>>, <<>>, <<>> >> }
+\* (Conc.wide[8]: a lone surrogate, which JSON data may hold - three bytes where it can be encoded at all)
+MCData == { << <<<<"arr", Arr(<<IntV(1), IntV(2), IntV(3)>>)>>, <<"s", Str("d" \o Wide \o Conc.wide[8].p \o "\r\n")>>>>, <<>>, <<>>, <<>> >> }
 MCCfgs == {[Cfg("+", sup, FALSE, "default") EXCEPT !.shopify = TRUE] : sup \in BOOLEAN}
 
 OutLeaves == {NText("ab"), NText(Wide), NText("a\r\nb\rc\n"), NOut(P(V("s"))), NOut(P(V("c"))), NOut(P(V("d"))), Incr("n"),
